@@ -82,6 +82,8 @@ type Field struct {
 	Validate  string `json:"validate,omitempty"`
 	Embedded  bool   `json:"embedded,omitempty"`
 	Descr     string `json:"descr,omitempty"`
+	// GroupWithNext declares this field together with the next one (A, B T): both share type and tags
+	GroupWithNext bool `json:"group_with_next,omitempty"`
 	// Deprecated renders a // @Deprecated annotation above the field (a usage-site decoration)
 	Deprecated bool `json:"deprecated,omitempty"`
 }
@@ -122,12 +124,14 @@ type EnumConst struct {
 }
 
 type Enum struct {
-	Name     string      `json:"name"`
-	Pkg      string      `json:"pkg"`
-	Base     string      `json:"base"`
-	Assigned bool        `json:"assigned,omitempty"` // type X = int
-	Values   []EnumConst `json:"values"`
-	Decoys   []EnumConst `json:"decoys,omitempty"` // constants of the *base* type in the same package (not members)
+	// SplitConsts declares the second half of the constants in another file of the package
+	SplitConsts bool        `json:"split_consts,omitempty"`
+	Name        string      `json:"name"`
+	Pkg         string      `json:"pkg"`
+	Base        string      `json:"base"`
+	Assigned    bool        `json:"assigned,omitempty"` // type X = int
+	Values      []EnumConst `json:"values"`
+	Decoys      []EnumConst `json:"decoys,omitempty"` // constants of the *base* type in the same package (not members)
 }
 
 type Alias struct {
